@@ -155,6 +155,24 @@ def St.read (s : St) (c : Nat) (drain : Bool) : Option St :=
     | some (x, i) => (s.deliver c x i).take c drain
     | none => none
 
+/-- `case trace := <-t.traces`: the k-th blocked `Send` hands `x` over; the range loop starts -/
+def St.takeTrace (s : St) (k : Nat) (x : Msg) : St :=
+  { s with pending := s.pending.eraseIdx k, log := s.log ++ [x],
+           pc := if s.subs.isEmpty then .idle else .push x 0 }
+
+/-- `case sch := <-t.subscription`: `append(t.subscribers, sch.channel)`; `sch.ok <- struct{}{}` (capacity 1) -/
+def St.acceptSub (s : St) (c : Nat) : St :=
+  { s.upd c (fun ch => { ch with stat := .subAcked, start := s.log.length }) with subs := s.subs ++ [c] }
+
+/-- `case unsch := <-t.unSubscription` with the channel in the list: swap-remove, then `unsch.ok <- struct{}{}` -/
+def St.removeSub (s : St) (c : Nat) : St :=
+  { s.upd c (fun ch => { ch with stat := .unsubWaitOk, stop := some s.log.length }) with
+    subs := swapRemove s.subs (s.subs.idxOf c), pc := .ackUnsub c }
+
+/-- the `Unsubscribe` loop takes the acknowledgement and returns; the broadcaster is back in its `select` -/
+def St.finishUnsub (s : St) (c : Nat) : St :=
+  { s.upd c (fun ch => { ch with stat := .done }) with pc := .idle }
+
 def step (cfg : Cfg) (s : St) : Act → Option St
   | .callSub cap =>
     some { s.upd s.nchan (fun _ => { cap := cap, stat := .subWait }) with nchan := s.nchan + 1 }
@@ -169,21 +187,16 @@ def step (cfg : Cfg) (s : St) : Act → Option St
                        next := fun j => if j = sd then s.next sd + 1 else s.next j }
   | .recvTrace k =>
     match s.pc, s.pending[k]? with
-    | .idle, some x =>
-      some { s with pending := s.pending.eraseIdx k, log := s.log ++ [x],
-                    pc := if s.subs.isEmpty then .idle else .push x 0 }
+    | .idle, some x => some (s.takeTrace k x)
     | _, _ => none
   | .recvSub c =>
     match s.pc, (s.chan c).stat with
-    | .idle, .subWait =>
-      some { s.upd c (fun ch => { ch with stat := .subAcked, start := s.log.length }) with subs := s.subs ++ [c] }
+    | .idle, .subWait => some (s.acceptSub c)
     | _, _ => none
   | .recvUnsub c =>
     match s.pc, (s.chan c).stat with
     | .idle, .unsubOffer =>
-      if c ∈ s.subs then
-        some { s.upd c (fun ch => { ch with stat := .unsubWaitOk, stop := some s.log.length }) with
-               subs := swapRemove s.subs (s.subs.idxOf c), pc := .ackUnsub c }
+      if c ∈ s.subs then some (s.removeSub c)
       else some s   -- `pos = -1`: no acknowledgement; the client's loop will offer the request again
     | _, _ => none
   | .push =>
@@ -207,7 +220,7 @@ def step (cfg : Cfg) (s : St) : Act → Option St
   | .takeOk c =>
     match s.pc, (s.chan c).stat with
     | .ackUnsub d, .unsubWaitOk =>
-      if d = c then some { s.upd c (fun ch => { ch with stat := .done }) with pc := .idle } else none
+      if d = c then some (s.finishUnsub c) else none
     | _, _ => none
 
 /-- a schedule is any list of actions; an action that is not enabled where it is scheduled is skipped -/
@@ -228,11 +241,38 @@ def St.upto (s : St) (c : Nat) : Nat :=
 def St.segment (s : St) (c : Nat) : List Msg :=
   (s.log.take (s.upto c)).drop (s.chan c).start
 
+/-! ### progress measure
+
+`mu` bounds the number of steps the goroutines that are inside the protocol can still take when no new call is begun:
+every blocked `Send` costs its hand-over plus a push and a read per subscriber there can be (`smax`: the list plus
+the subscriptions still waiting to be appended), the running range loop its remaining pushes (and their reads),
+every queued trace one read, every client inside `SubscribeChannel` / `Unsubscribe` its remaining hand-shakes. -/
+
+def sumTo (n : Nat) (w : Nat → Nat) : Nat := ((List.range n).map w).sum
+
+def CStat.weight : CStat → Nat
+  | .subWait => 2
+  | .subAcked => 1
+  | .unsubOffer => 2
+  | .unsubWaitOk => 1
+  | _ => 0
+
+def St.waiting (s : St) : Nat := sumTo s.nchan (fun c => if (s.chan c).stat = .subWait then 1 else 0)
+def St.smax (s : St) : Nat := s.subs.length + s.waiting
+def St.load (s : St) : Nat := sumTo s.nchan (fun c => (s.chan c).buf.length + (s.chan c).stat.weight)
+def St.pushRem (s : St) : Nat :=
+  match s.pc with
+  | .push _ i => s.subs.length - i
+  | _ => 0
+def St.mu (s : St) : Nat := s.pending.length * (1 + 2 * s.smax) + 2 * s.pushRem + s.load
+
 /-- some client is inside a call, or the broadcaster is not in its `select` -/
-def St.busy (s : St) : Bool :=
-  !s.pending.isEmpty || s.pc != .idle ||
-  (List.range s.nchan).any (fun c =>
-    let st := (s.chan c).stat
-    st == .subWait || st == .subAcked || st == .unsubOffer || st == .unsubWaitOk)
+def St.Busy (s : St) : Prop :=
+  s.pending ≠ [] ∨ s.pc ≠ .idle ∨ ∃ c, (s.chan c).stat.weight ≠ 0
+
+/-- every action of the list is enabled where it is scheduled -/
+def allEnabled (cfg : Cfg) : St → List Act → Prop
+  | _, [] => True
+  | s, a :: l => ∃ s', step cfg s a = some s' ∧ allEnabled cfg s' l
 
 end Bpmn.Model.Tracer
